@@ -319,7 +319,7 @@ def _limits():
 
 
 def plan(tier, seed):
-    return [('values', 400 if tier == 'quick' else 20000), ('tables', 1), ('limits', 1)]
+    return [('values', 1500 if tier == 'quick' else 20000), ('tables', 1), ('limits', 1)]
 
 
 def run_case(gen, idx, rng, tier):
